@@ -1,7 +1,7 @@
 (* C05 — One red element per tree position under any thread interleaving.  Property theorems only.
    The machine (Conc.v) has any number of threads running any programs; Reach quantifies over every
    schedule (the scheduler may ask for any thread at every step). *)
-From CsModel Require Import Red RedProofs Conc ConcProofs ConcHandles.
+From CsModel Require Import Red RedProofs Conc ConcProofs ConcHandles ConcReclaim ConcWf ConcTear.
 
 (* all handles any threads hold, are about to receive or have received for one position are the same
    element (same identity), by whatever routes and in whatever interleaving they were obtained *)
@@ -26,3 +26,21 @@ Theorem C05_slot_write_once : forall g s want s' tid evs p e,
   slot_lookup (c_slots s) p = Some e -> slot_lookup (c_slots s') p = Some e.
 Proof. exact slot_write_once. Qed.
 Print Assumptions C05_slot_write_once.
+
+(* identity semantics, the other direction: while the tree is alive one NodeData block stands for
+   one position, and no child shares the root's block — so two node handles with the same identity
+   denote the same position *)
+Theorem C05_block_identity : forall g progs s p1 p2 b,
+  Reach g progs s -> c_torn s = false ->
+  slot_lookup (c_slots s) p1 = Some (ENode b) -> slot_lookup (c_slots s) p2 = Some (ENode b) ->
+  p1 = p2 /\ b <> 0%nat.
+Proof. exact block_identity. Qed.
+Print Assumptions C05_block_identity.
+
+(* correct kind and parent: a slot holds a node exactly where the green tree has a node child, and
+   its parent position is the root or an initialised node slot *)
+Theorem C05_slot_kinds_correct : forall g progs s k q e,
+  Reach g progs s -> c_torn s = false -> slot_lookup (c_slots s) (k :: q) = Some e ->
+  is_enode e = child_is_node g q k /\ NodePos (c_slots s) q.
+Proof. exact slot_kinds_correct. Qed.
+Print Assumptions C05_slot_kinds_correct.
